@@ -197,6 +197,18 @@ PROPS = {
         text="Determinism is decided by byte identity over repetitions (Go randomises map iteration per range statement, so in-process repetition exposes map-order dependence; fresh processes add new hash seeds); purity by comparing a canonical dump of the whole list, aliasing included, around every write.",
         note="Trusted: the canonical dumper, sha256.",
         design="5/C19"),
+    "C08": P(
+        "TestC08", "exploration",
+        "readers: case = (format or the extension-dispatching opener, bytes, reader options); bytes = structure-aware mutations of documents rendered from the C01-C06 models: line delete / duplicate / swap / hostile-constant replace and insert / token-boundary truncation / document truncation / splice / EOL change (text formats), hostile TTML documents and attribute corruption, GSI/TTI field corruption and odd sizes (STL), transport streams whose packet and table layer is valid while PES payloads, data units and teletext packets are malformed (X/26-X/31 of the selected magazine, M/29 before any header, tiny payloads, wrong unit lengths, rows before headers, unknown data identifiers, junk after valid units, bit flips, reserved national option, repeated rows, non-PES payloads, streams without PAT/PMT or without teletext stream, PES without PTS), plus byte-level flips / inserts / deletes / truncations. "
+        "writers: case = (writer, hostile cue list): every optional part nil in any combination (metadata, maps, inline styles of cues / runs / styles / regions), definitions referenced but absent from the maps, empty lines / runs / texts, leading combining marks, controls, NUL, line terminators, non-BMP runes, 100 kB runs, TTML indent options. thorough: Go native coverage-guided fuzzing of the six readers (FuzzSRT/VTT/SSA/TTML/STL/TS, seeded with the repository inputs, rendered models and the hostile constants). "
+        "Oracle: recover() in a watchdog goroutine: no panic, return within 5 s + 50 us/byte (three attempts). Non-trivial = non-empty input (readers), >=1 absent optional part (writers); distinct = hash of the input.",
+        ["a panic whose innermost non-runtime frame (helper library astikit skipped) lies in go-astits is the third-party demultiplexer's own crash: excluded and counted, as the property states",
+         "map keys equal the definition's ID and Items holds no nil pointer (those are not optional parts)",
+         "a time-limit hit is re-run twice before it is reported"],
+        shards=(6, 16), timeout=(900, 7200), technique="structure-aware mutation fuzzing driven by rapid (shrinking to a minimal crashing document / cue list) plus Go native coverage-guided fuzzing in the thorough tier; oracle = no panic (recover) and bounded time (watchdog)",
+        text="Mutations keep enough structure to reach the parsers' inner logic (the table layer of transport streams stays valid, text documents stay line-structured); every crash is shrunk and saved as a self-contained replay. Absence of crashes is not established.",
+        note="Trusted: stack-based attribution of third-party crashes; the watchdog limit.",
+        design="5/C08", fuzz={"targets": ["FuzzSRT", "FuzzVTT", "FuzzSSA", "FuzzTTML", "FuzzSTL", "FuzzTS"], "seconds": 100}),
 }
 
 # Properties deliberately not claimed (reason each); anything else missing from PROPS is work in progress.
